@@ -77,6 +77,9 @@ func init() {
 			d.AlignBits(int(a))
 		case "structn":
 			d.FieldStructNArray("x", "e", a, func(d *decode.D) { d.FieldU8("b") })
+		case "iszero":
+			// the is-zero mapper of padding / reserved fields (pkg/decode/scalar.go bitBufIsZero: 32 KiB scratch buffer)
+			d.FieldRawLen("x", a, d.BitBufIsZero())
 		case "errorf":
 			d.Errorf("verif %d", a)
 		case "fatalf":
@@ -106,7 +109,9 @@ func coreObs(ws []string) string {
 	}
 	buf := make([]byte, nbytes)
 	for i := range buf {
-		buf[i] = byte(0xa5 + i)
+		if ws[0] != "iszero" { // iszero: an all-zero buffer (a non-zero byte ends the scan)
+			buf[i] = byte(0xa5 + i)
+		}
 	}
 	return coreDecode(buf, coreIn{Prim: ws[0], Arg: arg, Pos: pos}, ws[4] == "f")
 }
@@ -157,6 +162,12 @@ func coreCases() []string {
 					out = append(out, "core "+p+" "+strconv.FormatInt(a, 10)+" "+strconv.Itoa(bp[0])+" "+strconv.Itoa(bp[1])+" "+f)
 				}
 			}
+		}
+	}
+	// the is-zero scan around its 32 KiB scratch buffer
+	for _, bufBytes := range []int{4096, 32768, 65536} {
+		for _, bits := range []int64{0, 8, 12, 4096 * 8, 32767 * 8, 32768*8 - 4, 32768 * 8, 32768*8 + 4, 32769 * 8, 65535 * 8, 65536 * 8, 65536*8 + 8} {
+			out = append(out, "core iszero "+strconv.FormatInt(bits, 10)+" "+strconv.Itoa(bufBytes)+" 0 n")
 		}
 	}
 	return out
